@@ -67,21 +67,31 @@ package escape
 //@   modifies map(*Node;EscapeStatus), map(*Node;map[*Node]edgeFlags), map(*Node;*dataflow.EscapeRationale)
 
 // computeEdgeClosure propagates the status of a to b (and onwards): afterwards b is
-// at least as escaped as a was; no status is lowered; edges are untouched (frame).
+// at least as escaped as a was; no status is lowered; edges are untouched (frame);
+// and if every edge other than a->b was closed before (target at least as escaped
+// as its source), then EVERY edge is closed afterwards -- the worklist must re-visit
+// every node whose status it raises.
+//@ spec edge(g *EscapeGraph, x *Node, y *Node) bool = has(g.edges, x) && has(g.edges[x], y)
+//@ spec inWL(wl []*Node, x *Node) bool = exists k int :: 0 <= k && k < len(wl) && wl[k] == x
 //@ func EscapeGraph.computeEdgeClosure
 //@   property C15
 //@   requires g != nil && g.status != nil && g.edges != nil && g.rationales != nil
-//@   ensures extensive: statusGrew(g)
-//@   ensures propagated: g.status[b] >= old(g.status[a])
+//@   requires closed_except: forall x *Node, y *Node :: edge(g, x, y) && !(x == a && y == b) ==> g.status[y] >= g.status[x]
+//@   ensures extensive{grew,grew2}: statusGrew(g)
+//@   ensures propagated{prop,prop2}: g.status[b] >= old(g.status[a])
+//@   ensures closed{closed_except,pending,pending2}: forall x *Node, y *Node :: edge(g, x, y) ==> g.status[y] >= g.status[x]
 //@   modifies map(*Node;EscapeStatus), map(*Node;*dataflow.EscapeRationale)
-//@   loop node invariant fresh: isfresh(worklist)
-//@   loop succ invariant fresh2: isfresh(worklist)
-//@   loop node invariant frame: preserved(elems(*Node))
-//@   loop succ invariant frame2: preserved(elems(*Node))
-//@   loop node invariant grew: statusGrew(g)
-//@   loop node invariant prop: g.status[b] >= old(g.status[a])
-//@   loop succ invariant grew2: statusGrew(g)
-//@   loop succ invariant prop2: g.status[b] >= old(g.status[a])
+//@   loop node invariant fresh{fresh,fresh2}: isfresh(worklist)
+//@   loop succ invariant fresh2{fresh,fresh2}: isfresh(worklist)
+//@   loop node invariant frame{fresh,fresh2,frame,frame2}: preserved(elems(*Node))
+//@   loop succ invariant frame2{fresh,fresh2,frame,frame2}: preserved(elems(*Node))
+//@   loop node invariant grew{grew,grew2}: statusGrew(g)
+//@   loop node invariant prop{prop,prop2,grew,grew2}: g.status[b] >= old(g.status[a])
+//@   loop succ invariant grew2{grew,grew2}: statusGrew(g)
+//@   loop succ invariant prop2{prop,prop2,grew,grew2}: g.status[b] >= old(g.status[a])
+//@   loop node invariant pending{closed_except,pending,pending2,cur}: forall x *Node, y *Node :: edge(g, x, y) ==> g.status[y] >= g.status[x] || inWL(worklist, x)
+//@   loop succ invariant pending2{pending,pending2,cur}: forall x *Node, y *Node :: edge(g, x, y) ==> g.status[y] >= g.status[x] || inWL(worklist, x) || (x == node && !visited(succ, y))
+//@   loop succ invariant cur{cur}: g.status[node] == nodeStatus
 
 // MergeNodeStatus raises the status of n to at least s and never lowers any status.
 //@ func EscapeGraph.MergeNodeStatus
